@@ -23,7 +23,8 @@ MANIFEST = dict(
          "termination) and exports the option vectors; the real solver is run on generated matrices for a stratified "
          "sample covering every correction x update x tolerance x search-space-limit combination; its log and, per "
          "returned root, the true residual, normalisation, orthogonality, order and rank against Eigen's dense solvers "
-         "are judged by TraceDavidson.tla.",
+         "are judged by TraceDavidson.tla. The same for TLC-exported histories of 2-3 solves on one solver object "
+         "(DavidsonObject.tla: option setters, outcome classes; info() describes the last solve).",
     note="Partial claim. TLA+ contributes the protocol; the numeric predicates are computed by the driver with Eigen's "
          "SelfAdjointEigenSolver/EigenSolver and only consumed by the spec (units of the selected tolerance). "
          "'Success within the limit' and 'lowest roots' are asserted ONLY for the families where the statement promises "
@@ -35,7 +36,9 @@ MANIFEST = dict(
          "the skeleton (other restart/update sizes, iteration structure) is SPEC-DRIFT (warning, exit 0) - DESIGN 12.2. "
          "Known findings: flat-diagonal dominant matrices (no success in 50 iterations, missed root). Not covered: "
          "matrices > 400, complex/non-BSE non-symmetric input, size_initial_guess < size_update (undefined in the code), "
-         "reuse of one solver object, multi-threaded products.")
+         "histories of more than 3 solves on one object, multi-threaded products. History layer (DavidsonObject.tla): 2-3 "
+         "solves on ONE solver object with setters in between must satisfy the same predicates and info()/num_iterations()/"
+         "eigenvalues() must describe the last solve (keys <mode>:reuse:<predicate>).")
 
 SYMM_FAMS = ["dd", "dd", "dd", "ddweak", "ddflat", "rand", "neardeg", "block", "exactdeg"]
 HAM_FAMS = ["bse", "bse", "bsehard"]
